@@ -300,6 +300,101 @@ fn safe_check<P: Property>(p: &P, case: &P::Case) -> Result<CaseReport, String> 
     }
 }
 
+/// Reduces a failing case that did not come out of proptest (coverage-guided tier): delta debugging over every array
+/// inside the case's JSON form (operation lists, fault lists, ...) - chunks, then single elements, are removed as
+/// long as a violation of the same oracle rule remains. Bounded by `budget` evaluations.
+pub fn reduce_case<P: Property>(p: &P, case: &P::Case, known: &[KnownFinding], rule: &str, budget: usize) -> P::Case {
+    fn arrays(v: &Value, path: &mut Vec<String>, out: &mut Vec<Vec<String>>) {
+        match v {
+            Value::Array(a) => {
+                if !a.is_empty() {
+                    out.push(path.clone());
+                }
+                for (i, x) in a.iter().enumerate() {
+                    path.push(i.to_string());
+                    arrays(x, path, out);
+                    path.pop();
+                }
+            }
+            Value::Object(m) => {
+                for (k, x) in m {
+                    path.push(k.clone());
+                    arrays(x, path, out);
+                    path.pop();
+                }
+            }
+            _ => {}
+        }
+    }
+    fn at<'a>(v: &'a mut Value, path: &[String]) -> Option<&'a mut Value> {
+        let mut cur = v;
+        for k in path {
+            cur = match cur {
+                Value::Array(a) => a.get_mut(k.parse::<usize>().ok()?)?,
+                Value::Object(m) => m.get_mut(k)?,
+                _ => return None,
+            };
+        }
+        Some(cur)
+    }
+    let still_fails = |v: &Value| -> bool {
+        let c: P::Case = match serde_json::from_value(v.clone()) {
+            Ok(c) => c,
+            Err(_) => return false,
+        };
+        match safe_check(p, &c) {
+            Ok(r) => classify(&r.violations, known).0.iter().any(|x| x.rule == rule),
+            Err(_) => false,
+        }
+    };
+    let mut best = match serde_json::to_value(case) {
+        Ok(v) => v,
+        Err(_) => return case.clone(),
+    };
+    let mut spent = 0usize;
+    let mut progress = true;
+    while progress && spent < budget {
+        progress = false;
+        let mut paths = Vec::new();
+        arrays(&best, &mut Vec::new(), &mut paths);
+        // longest arrays first (operation lists)
+        paths.sort_by_key(|pth| std::cmp::Reverse(at(&mut best.clone(), pth).and_then(|v| v.as_array().map(|a| a.len())).unwrap_or(0)));
+        for pth in paths {
+            let len = match at(&mut best, &pth).and_then(|v| v.as_array().map(|a| a.len())) {
+                Some(l) => l,
+                None => continue,
+            };
+            let mut chunk = (len / 2).max(1);
+            loop {
+                let mut start = 0;
+                loop {
+                    let cur_len = at(&mut best, &pth).and_then(|v| v.as_array().map(|a| a.len())).unwrap_or(0);
+                    if start >= cur_len || spent >= budget {
+                        break;
+                    }
+                    let mut cand = best.clone();
+                    if let Some(Value::Array(a)) = at(&mut cand, &pth) {
+                        let end = (start + chunk).min(a.len());
+                        a.drain(start..end);
+                    }
+                    spent += 1;
+                    if still_fails(&cand) {
+                        best = cand;
+                        progress = true;
+                    } else {
+                        start += chunk;
+                    }
+                }
+                if chunk == 1 || spent >= budget {
+                    break;
+                }
+                chunk = (chunk / 2).max(1);
+            }
+        }
+    }
+    serde_json::from_value(best).unwrap_or_else(|_| case.clone())
+}
+
 /// Runs the whole check for one property; returns the process exit code.
 pub fn run_property<P: Property>(p: &P, opts: &RunOptions) -> i32 {
     let started = Instant::now();
@@ -586,10 +681,17 @@ pub fn run_property<P: Property>(p: &P, opts: &RunOptions) -> i32 {
                                         if unknown.is_empty() {
                                             harness_errors.push(format!("coverage-guided campaign: the violation saved in {} does not reproduce in the non-instrumented build", path));
                                         } else {
-                                            for v in &unknown {
+                                            // reduce the history (delta debugging) and keep the reduced case as the replay file
+                                            let reduced = reduce_case(p, &case, &known, &unknown[0].rule, 1500);
+                                            let vs = match safe_check(p, &reduced) {
+                                                Ok(r2) => classify(&r2.violations, &known).0,
+                                                Err(_) => Vec::new(),
+                                            };
+                                            let (final_path, vs) = if vs.is_empty() { (path.clone(), unknown) } else { (write_replay(&opts.verif_root, id, opts.tier, opts.seed, &reduced, &vs, "found by libFuzzer (coverage-guided tier), reduced by delta debugging over the case's lists"), vs) };
+                                            for v in &vs {
                                                 println!("violation (coverage-guided): rule={} signature={} detail={}", v.rule, v.signature, v.detail);
                                             }
-                                            violation_lines.push(format!("VIOLATION property={} replay={}", id, path));
+                                            violation_lines.push(format!("VIOLATION property={} replay={}", id, final_path));
                                         }
                                     }
                                 },
